@@ -1668,6 +1668,8 @@ Examples:
             x = copy.copy(x) #XXX: inefficient
             n = len(x) # a pair only applies if both of the pair are in range
             _mask = [m for m in mask if all(-n <= k < n for k in m)]
+            # (a negative index is the same entry as its positive twin)
+            _mask = [m for m in (tuple(k % n for k in m) for m in _mask) if m[0] != m[1]]
             pairs = connected(_mask)
             pairs = pairs.items()
             for i,j in pairs:
